@@ -52,16 +52,20 @@ impl InstructionGenerator {
             upper_bound,
             counter_var_name.expression_type(),
         );
-        // A to C (upper bound to C)
-        self.push(Instruction::CopyAToC, pos);
         // load the step expression
         match step {
             Some(s) => {
                 let step_pos = s.pos();
+                // keep the upper bound on the value stack while the step is evaluated
+                // (the step might call a function that has a FOR loop of its own)
+                self.push(Instruction::PushAToValueStack, pos);
                 // load step to A
                 self.generate_expression_instructions(s);
                 // A to D (step is in D)
                 self.push(Instruction::CopyAToD, pos);
+                // upper bound to C
+                self.push(Instruction::PopValueStackIntoA, pos);
+                self.push(Instruction::CopyAToC, pos);
                 // load 0 to B (after the step, because evaluating the step might use B)
                 self.push_load(Variant::VInteger(0), pos);
                 self.push(Instruction::CopyAToB, pos);
@@ -84,6 +88,8 @@ impl InstructionGenerator {
                 self.label("out-of-for", pos);
             }
             None => {
+                // A to C (upper bound to C)
+                self.push(Instruction::CopyAToC, pos);
                 self.push_load(Variant::VInteger(1), pos);
                 // A to D (step is in D)
                 self.push(Instruction::CopyAToD, pos);
